@@ -408,15 +408,9 @@ func (in *interp) exec(s bn.Stmt, env *Env) signal {
 		return sigReturn
 	case *bn.Break:
 		in.ctlLine, in.ctlWord = s.Line, "break"
-		if in.loops[len(in.loops)-1] == 0 && len(in.loops) > 1 {
-			in.unspecified("break inside a function body but outside any loop of that body")
-		}
 		return sigBreak
 	case *bn.Continue:
 		in.ctlLine, in.ctlWord = s.Line, "continue"
-		if in.loops[len(in.loops)-1] == 0 && len(in.loops) > 1 {
-			in.unspecified("continue inside a function body but outside any loop of that body")
-		}
 		return sigContinue
 	default:
 		panic(fmt.Sprintf("model: unknown statement %T", s))
